@@ -4,6 +4,7 @@ import (
 	"crypto/sha1"
 	"fmt"
 	"go/types"
+	"strings"
 
 	"golang.org/x/tools/go/ssa"
 )
@@ -156,12 +157,21 @@ func (s *State) heapComp(name, sort string) *Term {
 	}
 	t := Atom("H0."+name, sort)
 	s.Heap[name] = t
+	s.lenAxiom(name, t)
 	if s.Old != nil {
 		if _, ok := s.Old[name]; !ok {
 			s.Old[name] = t
 		}
 	}
 	return t
+}
+
+// lenAxiom states the typing invariant of slice-length components.
+func (s *State) lenAxiom(name string, t *Term) {
+	if strings.HasSuffix(name, "@len") && t.Sort == SArr(SInt, SInt) {
+		r := Atom("q_r", SInt)
+		s.Assume(Forall([]*Term{r}, Ge(Select(t, r), IntLit(0))))
+	}
 }
 
 func (s *State) setHeapComp(name string, t *Term) {
@@ -184,12 +194,12 @@ func (s *State) loadHeap(comp string, ref *Term, typ types.Type) Value {
 		return sv
 	case *types.Slice:
 		es := sortOfType(elemReifyType(u.Elem()))
-		arr := Select(s.heapComp(comp+"#arr", SArr(SInt, SArr(SInt, es))), ref)
-		ln := Select(s.heapComp(comp+"#len", SArr(SInt, SInt)), ref)
+		arr := Select(s.heapComp(comp+"@arr", SArr(SInt, SArr(SInt, es))), ref)
+		ln := Select(s.heapComp(comp+"@len", SArr(SInt, SInt)), ref)
 		return &SliceVal{Arr: arr, Len: ln, Cap: ln, Elem: u.Elem()}
 	case *types.Array:
 		es := sortOfType(elemReifyType(u.Elem()))
-		arr := Select(s.heapComp(comp+"#arr", SArr(SInt, SArr(SInt, es))), ref)
+		arr := Select(s.heapComp(comp+"@arr", SArr(SInt, SArr(SInt, es))), ref)
 		return &ArrayVal{Arr: arr, N: u.Len(), Elem: u.Elem()}
 	default:
 		t := Select(s.heapComp(comp, SArr(SInt, sortOfType(typ))), ref)
@@ -210,18 +220,18 @@ func (s *State) storeHeap(comp string, ref *Term, typ types.Type, v Value) {
 	case *types.Slice:
 		sl := s.sliceSnapshot(v)
 		es := sortOfType(elemReifyType(u.Elem()))
-		a := s.heapComp(comp+"#arr", SArr(SInt, SArr(SInt, es)))
-		l := s.heapComp(comp+"#len", SArr(SInt, SInt))
-		s.setHeapComp(comp+"#arr", Store(a, ref, sl.Arr))
-		s.setHeapComp(comp+"#len", Store(l, ref, sl.Len))
+		a := s.heapComp(comp+"@arr", SArr(SInt, SArr(SInt, es)))
+		l := s.heapComp(comp+"@len", SArr(SInt, SInt))
+		s.setHeapComp(comp+"@arr", Store(a, ref, sl.Arr))
+		s.setHeapComp(comp+"@len", Store(l, ref, sl.Len))
 	case *types.Array:
 		av, ok := v.(*ArrayVal)
 		if !ok {
 			unsupported("store non-array into array field")
 		}
 		es := sortOfType(elemReifyType(u.Elem()))
-		a := s.heapComp(comp+"#arr", SArr(SInt, SArr(SInt, es)))
-		s.setHeapComp(comp+"#arr", Store(a, ref, av.Arr))
+		a := s.heapComp(comp+"@arr", SArr(SInt, SArr(SInt, es)))
+		s.setHeapComp(comp+"@arr", Store(a, ref, av.Arr))
 	default:
 		c := s.heapComp(comp, SArr(SInt, sortOfType(typ)))
 		s.setHeapComp(comp, Store(c, ref, s.reify(v, typ)))
@@ -325,12 +335,12 @@ func (s *State) freshValue(hint string, typ types.Type) Value {
 		return sv
 	case *types.Slice:
 		es := sortOfType(u.Elem())
-		ln := s.X.Ctx.Fresh(hint+"#len", SInt)
+		ln := s.X.Ctx.Fresh(hint+"@len", SInt)
 		s.Assume(Ge(ln, IntLit(0)))
-		return &SliceVal{Arr: s.X.Ctx.Fresh(hint+"#arr", SArr(SInt, es)), Len: ln, Cap: ln, Elem: u.Elem()}
+		return &SliceVal{Arr: s.X.Ctx.Fresh(hint+"@arr", SArr(SInt, es)), Len: ln, Cap: ln, Elem: u.Elem()}
 	case *types.Array:
 		es := sortOfType(u.Elem())
-		return &ArrayVal{Arr: s.X.Ctx.Fresh(hint+"#arr", SArr(SInt, es)), N: u.Len(), Elem: u.Elem()}
+		return &ArrayVal{Arr: s.X.Ctx.Fresh(hint+"@arr", SArr(SInt, es)), N: u.Len(), Elem: u.Elem()}
 	case *types.Tuple:
 		tv := make(TupleVal, u.Len())
 		for i := range tv {
